@@ -7,6 +7,11 @@
 (* arguments, user arguments.  The user arguments are handed over as a tuple literal      *)
 (* ("t"), a fresh list ("f") or THE CALLER'S OWN LIST ("c"), which the caller goes on     *)
 (* changing afterwards (Mutate) and re-uses for further connects and disconnects.         *)
+(* The CALLBACK <<h, r>> is a plain function (r = 0) or the method h of receiver object   *)
+(* r (r in 1..NR); a bound method is handed over as an object the caller kept ("s") or    *)
+(* fetched afresh with `obj.h` ("n": a new object, equal to every other `obj.h`).  The    *)
+(* deprecated positional user_arg ua is 0 (None: not given) or one of the values UAs, of  *)
+(* which those in Falsy are false values (0, "", False, () ...): given all the same.      *)
 (* The caller keeps the keys returned by connect (held) and may let go of a sender        *)
 (* (DropSender) while still holding them; a fresh sender then takes the slot, so the      *)
 (* stale keys name nothing any more.                                                      *)
@@ -19,7 +24,10 @@
 (*   "alias"   a list given as user arguments is stored as the caller's object;           *)
 (*   "prefix"  disconnect compares the weak arguments pairwise up to the shorter length;  *)
 (*   "keyref"  the key returned by connect references its sender;                         *)
-(*   "strongargs" the handler entry references its weak arguments strongly.               *)
+(*   "strongargs" the handler entry references its weak arguments strongly;               *)
+(*   "cbident" disconnect looks for the callback OBJECT it is given (identity);            *)
+(*   "samefunc" disconnect compares the function of a bound method, not its receiver;     *)
+(*   "truthyarg" user_arg is passed on only when it is a true value.                      *)
 EXTENDS SignalsOps
 
 CONSTANTS NS, NN, NH, NW,   \* senders 1..NS, registered names 1..NN, handlers 1..NH, weak args 1..NW
@@ -27,6 +35,10 @@ CONSTANTS NS, NN, NH, NW,   \* senders 1..NS, registered names 1..NN, handlers 1
           NU,               \* distinct user tags
           UKinds,           \* subset of {"t", "f", "c"}: how user arguments are handed over
           Mem,              \* BOOLEAN: the caller drops senders (keeping or forgetting their keys)
+          NR,               \* receiver objects 1..NR whose bound methods serve as callbacks (0 = plain functions only)
+          CKinds,           \* subset of {"s", "n"}: a bound method is handed over as the object the caller kept / fetched afresh
+          UAs,              \* values of the deprecated user_arg explored (0 = None = not given)
+          Falsy,            \* those of UAs that are false values
           Behaviours,       \* set of handler behaviours explored
           MaxOps,           \* top-level operations per behaviour
           MaxConn,          \* handler-list length bound
@@ -50,7 +62,12 @@ CL == {<<t>> : t \in 1..NU} \cup {<<t, 9>> : t \in 1..NU}          \* contents t
 Lit == IF "c" \in UKinds THEN CL ELSE {<<t>> : t \in 1..NU}         \* literals
 UChoices == {z \in UKinds \X CL : IF z[1] = "c" THEN z[2] = clist ELSE z[2] \in Lit}
 
-MEntry(k, h, ws, uk, us) == [k |-> k, h |-> h, ws |-> ws, us |-> us, uk |-> uk]
+\* a plain function is always the same object; so is a bound method the caller kept ("s"); `obj.h` fetched afresh is a new object
+CBChoices == {z \in (0..NR) \X CKinds : z[1] = 0 => z[2] = "s"}
+ASSUME "s" \in CKinds /\ 0 \in UAs /\ Falsy \subseteq UAs \ {0}
+
+\* co = which callback OBJECT the machinery was given: 0 = the one the caller keeps, otherwise a number no other object has
+MEntry(k, h, r, co, ua, ws, uk, us) == [k |-> k, h |-> h, r |-> r, co |-> co, ua |-> ua, ws |-> ws, us |-> us, uk |-> uk]
 
 Init == /\ conn = [p \in S \X N |-> <<>>]
         /\ alive = W
@@ -66,19 +83,19 @@ Init == /\ conn = [p \in S \X N |-> <<>>]
 Idle == stack = <<>>
 BehOf(h) == IF beh[h] = "unset" THEN "plain" ELSE beh[h]
 
-DoConnect(s, n, h, ws, uk, us, stk) ==
-  /\ conn' = [conn EXCEPT ![<<s, n>>] = Append(@, MEntry(nextk, h, ws, uk, us))]
+DoConnect(s, n, h, r, ck, ua, ws, uk, us, stk) ==
+  /\ conn' = [conn EXCEPT ![<<s, n>>] = Append(@, MEntry(nextk, h, r, IF ck = "s" THEN 0 ELSE nextk, ua, ws, uk, us))]
   /\ nextk' = nextk + 1
   /\ stack' = NoteAdd(stk, nextk)
   /\ held' = held \cup {nextk}
   /\ mine' = [mine EXCEPT ![s] = @ \cup {nextk}]
 
-Connect(s, n, h, ws, uk, us) ==
+Connect(s, n, h, r, ck, ua, ws, uk, us) ==
   /\ Idle /\ nops < MaxOps /\ Len(conn[<<s, n>>]) < MaxConn
-  /\ DoConnect(s, n, h, ws, uk, us, stack)
+  /\ DoConnect(s, n, h, r, ck, ua, ws, uk, us, stack)
   /\ \E b \in (IF beh[h] = "unset" THEN Behaviours ELSE {beh[h]}) : beh' = [beh EXCEPT ![h] = b]
   /\ nops' = nops + 1
-  /\ last' = [op |-> "connect", a |-> <<s, n, h, ws, uk, us, nextk>>, verdict |-> "-"]
+  /\ last' = [op |-> "connect", a |-> <<s, n, h, ws, uk, us, nextk, r, ck, ua>>, verdict |-> "-"]
   /\ UNCHANGED <<alive, clist>>
 
 ConnectUnregistered(s, h) ==   \* rejected with NameError: no change
@@ -90,19 +107,22 @@ ConnectUnregistered(s, h) ==   \* rejected with NameError: no change
 \* what the machinery has stored as user arguments of entry e, per Mode
 StoredUs(e) == IF Mode = "alias" /\ e.uk = "c" THEN clist ELSE e.us
 IsList(uk) == uk \in {"f", "c"}
-Matches(e, h, ws, uk, us) ==
-  CASE Mode = "prefix" -> e.h = h /\ e.us = us /\ (IsPrefix(e.ws, ws) \/ IsPrefix(ws, e.ws))
-    [] Mode = "alias"  -> e.h = h /\ e.ws = ws /\ StoredUs(e) = us /\ IsList(e.uk) = IsList(uk)
-    [] OTHER           -> e.h = h /\ e.ws = ws /\ e.us = us
-FoundBy(seq, h, ws, uk, us) ==
-  LET m == SelectSeq(seq, LAMBDA e : Matches(e, h, ws, uk, us)) IN IF m = <<>> THEN 0 ELSE m[1].k
+Matches(e, h, r, ck, ua, ws, uk, us) ==
+  LET cb == e.h = h /\ e.r = r /\ e.ua = ua IN
+  CASE Mode = "prefix"   -> cb /\ e.us = us /\ (IsPrefix(e.ws, ws) \/ IsPrefix(ws, e.ws))
+    [] Mode = "alias"    -> cb /\ e.ws = ws /\ StoredUs(e) = us /\ IsList(e.uk) = IsList(uk)
+    [] Mode = "cbident"  -> cb /\ e.ws = ws /\ e.us = us /\ (ck = "s" /\ e.co = 0)     \* the very object given at connect time
+    [] Mode = "samefunc" -> e.h = h /\ (e.r = 0) = (r = 0) /\ e.ua = ua /\ e.ws = ws /\ e.us = us
+    [] OTHER             -> cb /\ e.ws = ws /\ e.us = us
+FoundBy(seq, h, r, ck, ua, ws, uk, us) ==
+  LET m == SelectSeq(seq, LAMBDA e : Matches(e, h, r, ck, ua, ws, uk, us)) IN IF m = <<>> THEN 0 ELSE m[1].k
 
-Disconnect(s, n, h, ws, uk, us) ==      \* by arguments; not connected => nothing happens
+Disconnect(s, n, h, r, ck, ua, ws, uk, us) ==      \* by arguments; not connected => nothing happens
   /\ Idle /\ nops < MaxOps
-  /\ LET k == FoundBy(conn[<<s, n>>], h, ws, uk, us) IN
+  /\ LET k == FoundBy(conn[<<s, n>>], h, r, ck, ua, ws, uk, us) IN
        /\ conn' = IF k = 0 THEN conn ELSE [conn EXCEPT ![<<s, n>>] = RemoveKey(@, k)]
-       /\ last' = [op |-> "disconnect", a |-> <<s, n, h, ws, uk, us, k>>,
-                   verdict |-> DisconnectVerdict(conn[<<s, n>>], k, h, ws, us)]
+       /\ last' = [op |-> "disconnect", a |-> <<s, n, h, ws, uk, us, k, r, ck, ua>>,
+                   verdict |-> DisconnectVerdict(conn[<<s, n>>], k, h, r, ua, ws, us)]
   /\ nops' = nops + 1
   /\ UNCHANGED <<alive, nextk, stack, beh, clist, held, mine>>
 
@@ -200,7 +220,7 @@ Effect(e, f, stk) ==
             /\ stack' = NoteDisc(stk, {live[me + 1].k})
             /\ UNCHANGED <<alive, nextk, beh, held, mine>>
        [] b = "connectNew" /\ Len(live) < MaxConn ->
-            /\ DoConnect(f.s, f.n, NH, <<>>, "t", <<1>>, stk)
+            /\ DoConnect(f.s, f.n, NH, 0, "s", NoUA, <<>>, "t", <<1>>, stk)
             /\ beh' = IF beh[NH] = "unset" THEN [beh EXCEPT ![NH] = "plain"] ELSE beh
             /\ UNCHANGED alive
        [] b = "emitAgain" /\ Len(stk) < 2 ->
@@ -218,6 +238,7 @@ EmitStep ==
   /\ LET f == Top
          e == Source(f)[f.i]
          dead == ~WeakAlive(e, alive)
+         tail == IF Mode = "truthyarg" /\ e.ua \in Falsy THEN <<>> ELSE UATail(e.ua)   \* what follows the emitted arguments
          f1 == IF dead THEN [f EXCEPT !.i = @ + 1]
                ELSE [f EXCEPT !.i = @ + 1, !.called = Append(@, e.k), !.rets = Append(@, BehOf(e.h) = "true")]
      IN IF dead
@@ -225,7 +246,7 @@ EmitStep ==
              /\ last' = [op |-> "skip_dead", a |-> <<e.k>>, verdict |-> "-"]
              /\ UNCHANGED <<conn, alive, nextk, beh, held, mine>>
         ELSE /\ Effect(e, f1, SetTop(stack, f1))
-             /\ last' = [op |-> "call", a |-> <<e.k, e.h, e.ws, StoredUs(e)>>, verdict |-> ArgsVerdict(e, e.ws, StoredUs(e))]
+             /\ last' = [op |-> "call", a |-> <<e.k, e.h, e.ws, StoredUs(e), e.r, tail>>, verdict |-> ArgsVerdict(e, e.ws, StoredUs(e), tail)]
   /\ UNCHANGED <<nops, clist>>
 
 EmitEnd ==
@@ -235,9 +256,11 @@ EmitEnd ==
   /\ UNCHANGED <<conn, alive, nextk, beh, nops, clist, held, mine>>
 
 Next ==
-  \/ \E s \in S, n \in N, h \in H, ws \in WSeqs(alive), u \in UChoices : Connect(s, n, h, ws, u[1], u[2])
+  \/ \E s \in S, n \in N, h \in H, ws \in WSeqs(alive), u \in UChoices, c \in CBChoices, ua \in UAs :
+        Connect(s, n, h, c[1], c[2], ua, ws, u[1], u[2])
   \/ \E s \in S, h \in H : ConnectUnregistered(s, h)
-  \/ \E s \in S, n \in N, h \in H, ws \in WSeqs(alive), u \in UChoices : Disconnect(s, n, h, ws, u[1], u[2])
+  \/ \E s \in S, n \in N, h \in H, ws \in WSeqs(alive), u \in UChoices, c \in CBChoices, ua \in UAs :
+        Disconnect(s, n, h, c[1], c[2], ua, ws, u[1], u[2])
   \/ \E s \in S, n \in N, k \in 1..(nextk - 1) : DisconnectByKey(s, n, k)
   \/ \E c \in CL : Mutate(c)
   \/ \E w \in W : Collect(w)
@@ -246,6 +269,40 @@ Next ==
   \/ EmitStep
   \/ EmitEnd
 Spec == Init /\ [][Next]_vars
+
+(* ---- the same machine for `tlc -simulate` (spec -> code scripts) ----                     *)
+(* In simulation TLC builds EVERY successor of a state before it picks one; Connect and     *)
+(* Disconnect have thousands (senders x names x callbacks x user_arg x weak sequences x     *)
+(* user arguments).  SimNext draws their parameters at random instead (one successor per    *)
+(* action), and every other disconnect names a connection that exists, handing its callback *)
+(* and user arguments over in a randomly chosen way.  (RandomElement must see a state       *)
+(* variable in its argument, or TLC evaluates it once for the whole run.)                   *)
+RE(set) == RandomElement({x \in set : nops >= 0})
+Rarely(n) == RE(1..n) = 1
+Busy == {p \in S \X N : conn[p] # <<>>}      \* emits go where something is connected, mostly
+SimConnect ==
+  \E s \in {RE(S)}, n \in {RE(N)}, h \in {RE(H)}, ws \in {RE(WSeqs(alive))}, u \in {RE(UChoices)}, c \in {RE(CBChoices)}, ua \in {RE(UAs)} :
+     Connect(s, n, h, c[1], c[2], IF Rarely(2) THEN ua ELSE NoUA, IF Rarely(2) THEN ws ELSE <<>>, u[1], u[2])
+SimDisconnect ==
+  \E hit \in {RE(BOOLEAN)} : \E p \in {RE(IF hit /\ Busy # {} THEN Busy ELSE S \X N)} :
+     IF hit /\ conn[p] # <<>>
+     THEN \E e \in {RE(Range(conn[p]))} :
+            \E ck \in {RE({k \in CKinds : e.r = 0 => k = "s"})}, uk \in {RE({k \in UKinds : k = "c" => e.us = clist})} :
+               Disconnect(p[1], p[2], e.h, e.r, ck, e.ua, e.ws, uk, e.us)
+     ELSE \E h \in {RE(H)}, ws \in {RE(WSeqs(alive))}, u \in {RE(UChoices)}, c \in {RE(CBChoices)}, ua \in {RE(UAs)} :
+             Disconnect(p[1], p[2], h, c[1], c[2], ua, ws, u[1], u[2])
+SimNext ==
+  \/ \E i \in 1..5 : SimConnect          \* (TLC picks among the successors it finds: the number of draws is the weight of an action)
+  \/ Rarely(3) /\ \E s \in {RE(S)}, h \in {RE(H)} : ConnectUnregistered(s, h)
+  \/ \E i \in 1..2 : SimDisconnect
+  \/ \E p \in {RE(S \X N)}, k \in {RE(0..(nextk - 1))} : DisconnectByKey(p[1], p[2], k)
+  \/ Rarely(2) /\ \E c \in {RE(CL)} : Mutate(c)
+  \/ Rarely(2) /\ \E w \in {RE(W)} : Collect(w)
+  \/ Rarely(2) /\ \E s \in {RE(S)}, keep \in {RE(BOOLEAN)} : DropSender(s, keep)
+  \/ \E i \in 1..4 : \E p \in {RE(IF Busy = {} \/ Rarely(5) THEN S \X N ELSE Busy)} : EmitBegin(p[1], p[2])
+  \/ EmitStep
+  \/ EmitEnd
+SimSpec == Init /\ [][SimNext]_vars
 
 (* ---- properties ---- *)
 \* every step keeps its sentence of the contract: finished emits (FirstBroken), the arguments of each call (ArgsVerdict),
